@@ -2,7 +2,8 @@
     theorems only; proofs are in C19/Proofs.v.
 
     The model is parametric in a record [f : fixes]: [all_fixes] is the tree as
-    it is now (after the `fix:` commits for C19-F1 … C19-F8, docs/FIXES_APPLIED.md),
+    it is now (after the `fix:` commits for C19-F1 … F10, F12, F13, for C06-F6 5e2c60e and C18-F2 07a625c,
+    docs/FIXES_APPLIED.md),
     [no_fixes] the pinned tree, kept to document the findings
     (`…_pinned_refuted`).  A Go panic is an explicit [Panic site] outcome; on
     the goroutines that run reloads and providers it is [ProcessExit] /
@@ -23,8 +24,8 @@ Print Assumptions C19_reload_total.
 
 (** "empty, partial … key-store files (also when observed half-written) … result in a rejected
     reload": a file whose last block is cut leaves undecodable bytes behind its last complete
-    block ([i_trailing]).  Outside the guard of C19-F10 such a file is not loaded; with the
-    candidate repair it never is, and the state is kept. *)
+    block ([i_trailing]).  Outside the guard of C19-F10 such a file is not loaded; since 9709c71 it
+    never is, and the state is kept. *)
 Theorem C19_partial_rejected_guarded : forall c f st i,
   guard_F10 c f i = false -> spec_partial_rejected i (on_changed c f st i).
 Proof. exact partial_rejected. Qed.
@@ -35,10 +36,10 @@ Theorem C19_partial_rejected_fixed : forall c f st i,
 Proof. exact partial_rejected_fixed. Qed.
 Print Assumptions C19_partial_rejected_fixed.
 
-Theorem C19_F10_refuted : exists c i st', i_trailing i = true /\ guard_F10 c no_fixes i = true /\
+Theorem C19_F10_pinned_refuted : exists c i st', i_trailing i = true /\ guard_F10 c no_fixes i = true /\
   on_changed c no_fixes st0 i = Reloaded st'.
 Proof. exact F10_refuted. Qed.
-Print Assumptions C19_F10_refuted.
+Print Assumptions C19_F10_pinned_refuted.
 
 (** "None of them … stops a background watcher": after ANY sequence of file contents the
     listener is alive; contents that do not load change nothing; and after any number of bad
@@ -143,16 +144,16 @@ Theorem C19_truststore_total : forall strict i s, trust_store all_fixes strict i
 Proof. exact trust_store_total_now. Qed.
 Print Assumptions C19_truststore_total.
 
-(** an empty or partial trust store is not accepted once C19-F10 is repaired; the tree as it is accepts it
+(** an empty or partial trust store is not accepted since 9709c71 (fx10); the tree before it (with b504821) accepted it
     silently (with the certificates decoded so far) *)
 Theorem C19_truststore_partial_rejected_fixed : forall f strict i l,
   fx10 f = true -> (ts_blocks i = [] \/ ts_trailing i = true) -> trust_store f strict i <> Ok l.
 Proof. exact trust_store_partial_rejected_fixed. Qed.
 Print Assumptions C19_truststore_partial_rejected_fixed.
 
-Theorem C19_F10_truststore_refuted : exists f i l, fx7 f = true /\ fx10 f = false /\ ts_blocks i = [] /\ trust_store f true i = Ok l.
+Theorem C19_F10_truststore_pinned_refuted : exists f i l, fx7 f = true /\ fx10 f = false /\ ts_blocks i = [] /\ trust_store f true i = Ok l.
 Proof. exact F10_truststore_refuted. Qed.
-Print Assumptions C19_F10_truststore_refuted.
+Print Assumptions C19_F10_truststore_pinned_refuted.
 
 (** for any set of repairs NewTrustStoreFromPEMBytes panics exactly on the inputs of C19-F7 *)
 Theorem C19_truststore_panic_iff : forall f strict i s,
@@ -206,10 +207,13 @@ Theorem C19_F3_pinned_refuted : exists e, guard_F3 no_fixes false false e = true
 Proof. exact F3_refuted. Qed.
 Print Assumptions C19_F3_pinned_refuted.
 
-Theorem C19_F8_pinned_refuted : exists e, guard_F8 no_fixes false false e = true /\
-  ~ spec_rs_ok ["old"%string] (process no_fixes false false ["old"%string] e).
-Proof. exact F8_refuted. Qed.
-Print Assumptions C19_F8_pinned_refuted.
+(** a panic of the rule-set decoder is an exit for EVERY variant of the code (no recover around it).  C19-F8's
+    repair (checkKeys, b69f65b) changes the parser's answer, i.e. the DATA of a case, not a function of this model:
+    no theorem tells the pinned tree from the current one there; the rules stream and its corpus do. *)
+Theorem C19_decoder_panic_is_exit : forall f proxy def st e,
+  ev_parse e = PPanics -> process f proxy def st e = RsExit SDecode.
+Proof. exact decoder_panic_is_exit. Qed.
+Print Assumptions C19_decoder_panic_is_exit.
 
 (** the scopes-matcher decode hook (`assertions: {scopes: …}` of a rule-level authenticator config),
     for every value: it panics exactly on the inputs of C19-F9, and never once its assertions are checked *)
@@ -222,9 +226,9 @@ Theorem C19_decode_scopes_total_fixed : forall f v s, fx9 f = true -> decode_sco
 Proof. exact decode_scopes_total_fixed. Qed.
 Print Assumptions C19_decode_scopes_total_fixed.
 
-Theorem C19_F9_refuted : exists v, guard_F9 no_fixes v = true /\ exists s, decode_scopes no_fixes v = Panic s.
+Theorem C19_F9_pinned_refuted : exists v, guard_F9 no_fixes v = true /\ exists s, decode_scopes no_fixes v = Panic s.
 Proof. exact F9_refuted. Qed.
-Print Assumptions C19_F9_refuted.
+Print Assumptions C19_F9_pinned_refuted.
 
 (** * File-system provider: every fsnotify event, previous state, file situation and processor answer *)
 
@@ -237,19 +241,26 @@ Theorem C19_fs_run_alive : forall st es, exists st', fs_run all_fixes st es = Al
 Proof. exact fs_run_alive_now. Qed.
 Print Assumptions C19_fs_run_alive.
 
+Theorem C19_fs_run_all_rejected : forall st es, forallb fs_bad_event es = true -> fs_run all_fixes st es = Alive st.
+Proof. exact fs_run_all_rejected_now. Qed.
+Print Assumptions C19_fs_run_all_rejected.
+
 Theorem C19_fs_run_last_good : forall st es e h,
   op_class all_fixes (fe_bits e) = FsWrite -> fe_read e = RdParsed h -> fe_stat_ok e = true -> fe_proc_ok e = true ->
   fs_run all_fixes st (es ++ [e]) = Alive (Some h).
 Proof. exact fs_run_last_good_now. Qed.
 Print Assumptions C19_fs_run_last_good.
 
-(** "truncations at every offset … the previously loaded state stays in effect" fails at offset 0 (C19-F11, open,
-    by design of the provider): an event that finds the file EMPTY keeps the stored state only outside the guard *)
-Theorem C19_fs_empty_keeps_state_guarded : forall f st e,
-  fx18 f = true -> guard_F11 f st e = false -> fe_read e = RdEmpty ->
-  exists x, fs_changed f st e = FsDone x /\ fr_state x = st.
-Proof. exact fs_empty_keeps_state. Qed.
-Print Assumptions C19_fs_empty_keeps_state_guarded.
+(** "truncations at every offset … the previously loaded state stays in effect" FAILS at offset 0 for every loaded
+    source (C19-F11, open; by design of the provider and required by C18's statement "emptied sources are unloaded"):
+    on the tree as it is an event that finds the rule file empty drops the stored state exactly when the guard fires,
+    i.e. whenever the source was loaded *)
+Theorem C19_fs_empty_changes_state_iff : forall f st e,
+  fx18 f = true -> fe_read e = RdEmpty ->
+  (guard_F11 f st e = true <-> exists x, fs_changed f st e = FsDone x /\ (fe_proc_ok e = true -> fr_state x <> st)
+                                          /\ fr_calls x = [PDeleted]).
+Proof. exact fs_empty_changes_state_iff. Qed.
+Print Assumptions C19_fs_empty_changes_state_iff.
 
 Theorem C19_F11_refuted : exists e, guard_F11 all_fixes (Some 1) e = true /\ fe_read e = RdEmpty /\
   exists x, fs_changed all_fixes (Some 1) e = FsDone x /\ fr_state x <> Some 1.
@@ -280,19 +291,19 @@ Theorem C19_update_status_panic_iff : forall f tries s,
 Proof. exact update_status_panic_iff. Qed.
 Print Assumptions C19_update_status_panic_iff.
 
-(** … and never with the two candidate repairs *)
+(** … and never since 7bff27d / e0c0f15 (fx12, fx13) *)
 Theorem C19_update_status_total_fixed : forall f tries s,
   fx12 f = true -> fx13 f = true -> update_status f tries <> Panic s.
 Proof. exact update_status_total_fixed. Qed.
 Print Assumptions C19_update_status_total_fixed.
 
-Theorem C19_F12_refuted : exists tries, guard_F12 no_fixes tries = true /\ update_status no_fixes tries = Panic SActiveIn.
+Theorem C19_F12_pinned_refuted : exists tries, guard_F12 no_fixes tries = true /\ update_status no_fixes tries = Panic SActiveIn.
 Proof. exact F12_refuted. Qed.
-Print Assumptions C19_F12_refuted.
+Print Assumptions C19_F12_pinned_refuted.
 
-Theorem C19_F13_refuted : exists tries, guard_F13 no_fixes tries = true /\ update_status no_fixes tries = Panic SStatusErr.
+Theorem C19_F13_pinned_refuted : exists tries, guard_F13 no_fixes tries = true /\ update_status no_fixes tries = Panic SStatusErr.
 Proof. exact F13_refuted. Qed.
-Print Assumptions C19_F13_refuted.
+Print Assumptions C19_F13_pinned_refuted.
 
 (** * Request goroutines: a panic BEFORE anything was written (e.g. the composite extractor on an
     empty strategy list, which panics exactly then) is answered by the recovery middleware, never
@@ -309,7 +320,7 @@ Theorem C19_composite_extract_panic_iff : forall l s,
 Proof. exact composite_extract_panic_iff. Qed.
 Print Assumptions C19_composite_extract_panic_iff.
 
-(** * non-vacuity: a two-key store with a certificate chain reloads; a typed rule set is applied *)
+(** * non-vacuity: a two-key store with a certificate chain reloads; a rule set satisfying the hypothesis of [C19_ruleset_total] is applied *)
 Example C19_reload_nonvacuous :
   let leaf := {| c_id := 5; c_pub := 1; c_subj := "leaf"; c_iss := "ca"; c_aki := "cafe"; c_ski := "" |} in
   let ca := {| c_id := 6; c_pub := 9; c_subj := "ca"; c_iss := "ca"; c_aki := ""; c_ski := "cafe" |} in
@@ -321,3 +332,15 @@ Example C19_reload_nonvacuous :
   on_changed Tls all_fixes st0 (in_of "" [BKey (Some (KSig ECDSA 256 1 "aa")) ""; BCert (Some leaf); BCert (Some ca)]) =
     Reloaded {| st_kid := ""; st_alg := ""; st_pub := Some 1; st_keys := []; st_chain := [5; 6] |}.
 Proof. exact reload_nonvacuous_now. Qed.
+Print Assumptions C19_reload_nonvacuous.
+
+Example C19_ruleset_nonvacuous :
+  let e := ev_of [{| r_name := "r"; r_id := "r#1";
+                     r_exec := [{| s_map := [("authenticator", YStr "anon"); ("config", YMap [("subject", YStr "x")])]%string;
+                                   s_mech := MOk; s_cel := false |};
+                                {| s_map := [("authorizer", YStr "cel"); ("if", YStr "true")]%string; s_mech := MOk; s_cel := true |}];
+                     r_eh := [{| s_map := [("error_handler", YStr "default")]%string; s_mech := MOk; s_cel := false |}];
+                     r_backend := false; r_rest := MOk |}] in
+  ev_oracle_total all_fixes e = true /\ process all_fixes false false ["old"%string] e = RsApplied ["r#1"%string].
+Proof. exact ruleset_nonvacuous_now. Qed.
+Print Assumptions C19_ruleset_nonvacuous.
